@@ -21,7 +21,13 @@ use crate::rng::ScriptedRng;
 /// `g9` = 2^9 (the 8n quotient domain reaches the 2^12 parallel-FFT switch),
 /// `g10`, `g12` = 2^10 / 2^12 (n-sized FFTs of g12 are parallel too).
 pub const QUICK: [&str; 2] = ["g5", "g9"];
-pub const THOROUGH: [&str; 4] = ["g5", "g9", "g10", "g12"];
+pub const THOROUGH: [&str; 5] = ["g5", "g9", "g10", "g12", "f10"];
+/// `fK`: the same circuit grown until its constraints FILL the 2^K domain exactly
+/// (no padding rows: the last rows of every n-sized vector carry real data, so a
+/// chunking / remainder mistake at the end of a parallel region cannot hide in padding).
+/// Used by the thread-count and fresh-process parts, and by the explorer in thorough.
+pub const POOLS_QUICK: [&str; 4] = ["g5", "g9", "f9", "f10"];
+pub const POOLS_THOROUGH: [&str; 8] = ["g5", "g9", "g10", "g12", "f9", "f10", "f11", "f12"];
 
 pub struct Subject {
     pub id: &'static str,
@@ -38,10 +44,15 @@ pub fn subject(id: &str) -> Subject {
         "g9" => ("g9", 9, 9),
         "g10" => ("g10", 10, 10),
         "g12" => ("g12", 12, 12),
+        "f9" => ("f9", 9, 19),
+        "f10" => ("f10", 10, 20),
+        "f11" => ("f11", 11, 21),
+        "f12" => ("f12", 12, 22),
         _ => panic!("unknown subject {}", id),
     };
     let seed = crate::fe::seed();
-    let prog = Prog::new(move |c| build(c, log_n, seed));
+    let full = sid.starts_with('f');
+    let prog = Prog::new(move |c| build(c, log_n, seed, full));
     Subject { id: sid, log_n, label: format!("vp-c18-{}", sid).into_bytes(), rng_stream: stream, prog }
 }
 
@@ -58,8 +69,9 @@ pub fn subject(id: &str) -> Subject {
 /// order (`public_inputs.insert(current_row, pi)`), so "insertion order" of
 /// that map is the sorted order; unsorted orders exist only through the
 /// iteration-order policies of the hashbrown shim.
-fn build(c: &mut Composer, log_n: u32, seed: u64) -> Result<(), Error> {
-    let target = (1usize << log_n) - 6 - 3;
+fn build(c: &mut Composer, log_n: u32, seed: u64, full: bool) -> Result<(), Error> {
+    // the two closing gates come on top of `target`
+    let target = if full { (1usize << log_n) - 2 } else { (1usize << log_n) - 6 - 3 };
     let mut rho = Rho::new(seed, 1800 + log_n as u64);
 
     let p0 = c.append_public(fe(7)); // PI
@@ -126,7 +138,8 @@ pub fn rng(s: &Subject) -> ScriptedRng {
 
 /// Public parameters for a subject (seeded setup shared with the main harness).
 pub fn pp_for(s: &Subject) -> std::sync::Arc<PublicParameters> {
-    crate::setup::pp(1usize << s.log_n)
+    // a domain-filling circuit needs commit-key capacity for (constraints + 6).next_power_of_two()
+    crate::setup::pp((1usize << s.log_n) << if s.id.starts_with('f') { 1 } else { 0 })
 }
 
 #[derive(Clone, PartialEq, Eq, Debug, Default)]
